@@ -103,6 +103,10 @@ func unpinnedInStepInvariant(c *Case) bool {
 				if inside && n.Timestamp == nil {
 					found = true
 				}
+			case *parser.Call:
+				if _, unsafe := promql.AtModifierUnsafeFunctions[n.Func.Name]; inside && unsafe {
+					found = true // e.g. time() in the parameter of a pinned aggregation
+				}
 			}
 			return true
 		})
